@@ -33,8 +33,8 @@ func CmdSelftest(args []string) int {
 			return 2
 		}
 	}
-	// the race detector's own conformance programs: four racy ones (all
-	// reported) and six correctly synchronised ones (none reported)
+	// the race detector's own conformance programs: five racy ones (all
+	// reported) and seven correctly synchronised ones (none reported)
 	ld2, err := Load([]string{"fasthttputil"}, "amd64")
 	if err != nil {
 		fmt.Fprintln(os.Stderr, "selftest: load:", err)
@@ -43,7 +43,7 @@ func CmdSelftest(args []string) int {
 	os.Setenv("GOSYM_RACE_ALL", "1")
 	defer os.Unsetenv("GOSYM_RACE_ALL")
 	sp2 := ld2.Pkgs["fasthttputil"]
-	for h, want := range map[string]int{"vhRaceSelfRacy": 4, "vhRaceSelfClean": 0} {
+	for h, want := range map[string]int{"vhRaceSelfRacy": 5, "vhRaceSelfClean": 0} {
 		fn := sp2.Func(h)
 		if fn == nil {
 			fmt.Fprintln(os.Stderr, "selftest: missing harness", h)
